@@ -390,7 +390,12 @@ class TimeoutAfter:
         if timed_out_deadline is None:
             return False
         if uncaught:
-            raise UncaughtTimeoutError('uncaught timeout received')
+            # An inner timeout that was not handled arrives as its TaskTimeout.  Anything
+            # else means the record is stale (the inner timeout was handled or ignored
+            # earlier) and the exception - e.g. an external cancellation - is not ours.
+            if exc_type is TaskTimeout:
+                raise UncaughtTimeoutError('uncaught timeout received')
+            return False
         if exc_type is TimeoutCancellationError:
             return False
         raise TimeoutCancellationError(timed_out_deadline) from None
